@@ -146,6 +146,10 @@ type Explorer struct {
 	decimals         []decRecord
 	curFn            *ssa.Function
 	AllowTagsInFresh bool
+	CaptureLogs      bool      // record the byte strings handed to the logging package (verif.CaptureLogs)
+	logSink          [][]value // everything recorded
+	logLevel         uint32
+	logLevelSet      bool
 	FreshASCII       bool // bound: opaque crypto outputs are 7-bit bytes (for code that pushes them through []rune)
 	taken            []int
 	freshN           int
@@ -211,6 +215,9 @@ func (e *Explorer) startPath(prefix []int) {
 	e.freshCat = nil
 	e.decimals = nil
 	e.AllowTagsInFresh = false
+	e.CaptureLogs = false
+	e.logSink = nil
+	e.logLevelSet = false
 	e.FreshASCII = false
 	e.freshSizes = map[string][]int{}
 	e.inSizes = map[string]int{}
